@@ -73,7 +73,7 @@ def ordinal_keys(items):
         yield (key if n == 1 else f"{key}#{n}"), rest
 
 
-@rule("I1", ["C07", "C08"], floor=30, doc="every read of the input stream in `savefile` is an exact read "
+@rule("I1", ["C07", "C08"], floor=24, doc="every read of the input stream in `savefile` is an exact read "
       "(read_exact / byteorder); bare Read::read only inside CryptoReader's chunk loop")
 def i1(facts, tier):
     al = allow()
